@@ -17,11 +17,9 @@ theorem decUcs2_bmp (u : Nat) (rest : List UInt8) (hu : u < 65536) (hns : u < 55
     decUcs2 (UInt8.ofNat (u / 256) :: UInt8.ofNat (u % 256) :: rest) = u :: decUcs2 rest := by
   rw [decUcs2.eq_def]
   simp only [unit_bytes u hu]
-  have c1 : (decide (55296 ≤ u) && decide (u < 56320)) = false := by
+  have c1 : (decide (55296 ≤ u) && decide (u < 57344)) = false := by
     simp only [Bool.and_eq_false_iff, decide_eq_false_iff_not]; omega
-  have c2 : (decide (56320 ≤ u) && decide (u < 57344)) = false := by
-    simp only [Bool.and_eq_false_iff, decide_eq_false_iff_not]; omega
-  simp only [c1, c2, Bool.false_eq_true, ↓reduceIte]
+  simp only [c1, Bool.false_eq_true, ↓reduceIte]
 
 /-- a high surrogate followed by a low surrogate -/
 theorem decUcs2_pair (hi lo : Nat) (rest : List UInt8) (hhi : 55296 ≤ hi ∧ hi < 56320)
@@ -30,11 +28,11 @@ theorem decUcs2_pair (hi lo : Nat) (rest : List UInt8) (hhi : 55296 ≤ hi ∧ h
       = (65536 + (hi - 55296) * 1024 + (lo - 56320)) :: decUcs2 rest := by
   rw [decUcs2.eq_def]
   simp only [unit_bytes hi (by omega), unit_bytes lo (by omega)]
-  have c1 : (decide (55296 ≤ hi) && decide (hi < 56320)) = true := by
+  have c1 : (decide (55296 ≤ hi) && decide (hi < 57344)) = true := by
     simp only [Bool.and_eq_true, decide_eq_true_eq]; omega
   have c2 : (decide (56320 ≤ lo) && decide (lo < 57344)) = true := by
     simp only [Bool.and_eq_true, decide_eq_true_eq]; omega
-  simp only [c1, c2, ↓reduceIte]
+  simp only [c1, c2, ↓reduceIte, if_pos hhi.2]
 
 theorem decUcs2_utf16be (r : Nat) (rest : List UInt8) (hs : isScalar r = true) :
     decUcs2 (utf16be r ++ rest) = r :: decUcs2 rest := by
